@@ -44,8 +44,7 @@ _FLIP = [False]
 def next_ctx():
     """the context object for the next dispatch call: consecutive calls get equal but distinct objects; the recording
     bodies mark as `<CTX>` the object of the call in progress and as `<stale-ctx>` any other context object"""
-    _FLIP[0] = not _FLIP[0]
-    CURRENT['ctx'] = CTX2 if _FLIP[0] else CTX
+    CURRENT['ctx'] = Ctx()          # a new object for every call (equal to every other one)
     return CURRENT['ctx']
 
 
